@@ -101,7 +101,9 @@ def build_all(prop, cfg, log):
             res["extract_report"] = json.load(open(os.path.join(BUILD, "extract_report.json")))
         except Exception:
             res["extract_report"] = {}
-        targets = ["theories/Props/%s.vo" % prop] + ["theories/" + t for t in cfg.get("extra_targets", [])]
+        targets = ([] if cfg.get("no_props") else ["theories/Props/%s.vo" % prop]) + ["theories/" + t for t in cfg.get("extra_targets", [])]
+        if cfg.get("no_props"):
+            targets += ["theories/Base/Check.vo"] + ["theories/" + r.replace(".", "/") + ".vo" for r in cfg.get("requires", [])]
         rc, out, dt = sh(["make", "-j16"] + targets, cwd=COQ, timeout=cfg.get("make_timeout", 1500))
         log.append(("make", rc, dt, out[-6000:]))
         if rc != 0:
@@ -121,7 +123,7 @@ def build_all(prop, cfg, log):
             log.append(("make(model only)", rc2, dt2, out2[-3000:]))
             if rc2 != 0:
                 res["gen_ok"] = False
-        else:
+        elif not cfg.get("no_props"):
             # capture Print Assumptions of the property theorems
             rc, out, dt = sh(["coqc", "-Q", "theories", "Geo", "-w", "-notation-overridden,-deprecated-hint-without-locality,-deprecated-instance-without-locality,-ambiguous-paths,-deprecated-syntactic-definition",
                               "theories/Props/%s.v" % prop], cwd=COQ, timeout=600)
